@@ -5,6 +5,7 @@ import BFL.Proofs.GPF
 import Mathlib.MeasureTheory.Measure.Map
 import Mathlib.MeasureTheory.Integral.Bochner.Basic
 import Mathlib.MeasureTheory.Constructions.BorelSpace.Real
+import Mathlib.Analysis.Real.Pi.Bounds
 /-
 C08 — the Gaussian particle filter propagates beliefs and importance weights correctly.
 
@@ -357,6 +358,62 @@ theorem gpf_move_assign_needs_likelihood_model :
   have h2 := congrArg (fun q : PSet ℝ 1 1 => q.state 0 0) this
   simp [gpfObjCorrect, gpfMoveAssignKeepLik, gpfCorrect, gpfDraw, gpfSample, Mat.mulVec_apply, fsum, dst, src, p,
     Fin.foldl_succ, Fin.foldl_zero] at h2
+
+/-! ### Particle sets with angular components (`ParticleSet(k, n − circ, circ)`)
+
+The Gaussian particle filter steps do not look at the layout: the theorems above hold for every row of
+the state, angular or not (`gpf_correct_state`: the position is `μ' + S z`, nothing is reduced to
+(−π, π]).  The statements below say why it has to be so. -/
+
+/-- A position moved by any vector `d` after the draw (`x = μ + S z + d`; a reduction of an angular row to
+    (−π, π] moves the draw by a multiple of `2π` along that row): its squared Mahalanobis distance is
+    `zᵀz + 2 dᵀP⁻¹(S z) + dᵀP⁻¹d`, which is `zᵀz` only on a hyperplane of draws. -/
+theorem gpf_shifted_draw_quad (μ d : Vec ℝ n) (S P : Mat ℝ n n) (z : Vec ℝ n)
+    (hP : (toM P).PosDef) (hS : SqrtOf S P) :
+    (toV (gpfSample μ S z) + toV d - toV μ) ⬝ᵥ ((toM P)⁻¹ *ᵥ (toV (gpfSample μ S z) + toV d - toV μ))
+      = toV z ⬝ᵥ toV z + 2 * (toV d ⬝ᵥ ((toM P)⁻¹ *ᵥ (toM S *ᵥ toV z))) + toV d ⬝ᵥ ((toM P)⁻¹ *ᵥ toV d) := by
+  have hx : toV (gpfSample μ S z) + toV d - toV μ = toM S *ᵥ toV z + toV d := by
+    simp [gpfSample]; abel
+  rw [hx]
+  exact GPFProofs.mahalanobis_shift hP hS (toV z) (toV d)
+
+/-- linear rows are never touched by a reduction of the angular rows -/
+theorem gpf_wrap_rows_linear (wrap : ℝ → ℝ) (circ : Nat) (x : Vec ℝ n) (j : Fin n) (hj : j.val < n - circ) :
+    gpfWrapRows wrap circ x j = x j := by
+  unfold gpfWrapRows
+  rw [Vec.of_apply, if_neg (Nat.not_le.mpr hj)]
+
+/-- a reduction that fixes every angular coordinate of a position leaves the position as it is: with all
+    angles inside (−π, π] a filter that reduces and one that does not cannot be told apart -/
+theorem gpf_wrap_rows_fixed (wrap : ℝ → ℝ) (circ : Nat) (x : Vec ℝ n)
+    (h : ∀ j : Fin n, n - circ ≤ j.val → wrap (x j) = x j) :
+    ∀ j, gpfWrapRows wrap circ x j = x j := by
+  intro j
+  unfold gpfWrapRows
+  rw [Vec.of_apply]
+  by_cases hj : n - circ ≤ j.val
+  · rw [if_pos hj, h j hj]
+  · rw [if_neg hj]
+
+/-- Why the drawn position must not be reduced to (−π, π]: the Mahalanobis identity (hence the χ² law of
+    the distances and the proposal density in the weight) fails.  Witness: one angular component,
+    belief `N(3, 1)`, draw `z = 1`: the position `4` lies beyond `π`; reduced, it is `4 − 2π`, at squared
+    distance `(1 − 2π)² ≠ 1 = z²` from the mean. -/
+theorem gpf_wrapped_draw_breaks_mahalanobis :
+    ¬ ∀ (wrap : ℝ → ℝ) (μ : Vec ℝ 1) (S P : Mat ℝ 1 1) (z : Vec ℝ 1),
+        (toM P).PosDef → SqrtOf S P →
+        gpfQuad (fun A => A) (gpfWrapRows wrap 1 (gpfSample μ S z)) μ P = toV z ⬝ᵥ toV z := by
+  intro h
+  have hP : (toM (Mat.one : Mat ℝ 1 1)).PosDef := by
+    rw [toM_one]; exact Matrix.PosDef.one
+  have hS : SqrtOf (Mat.one : Mat ℝ 1 1) Mat.one := by
+    simp [SqrtOf]
+  have := h (fun a => if Real.pi < a then a - 2 * Real.pi else a) (Vec.of fun _ => 3) Mat.one Mat.one
+    (Vec.of fun _ => 1) hP hS
+  have h4 : Real.pi < 3 + 1 := by linarith [Real.pi_lt_four]
+  simp [gpfQuad, gpfWrapRows, gpfSample, Vec.dot, Vec.sub, Vec.add, Mat.mulVec_apply, Mat.one, fsum,
+    Fin.foldl_succ, Fin.foldl_zero, dotProduct, h4] at this
+  nlinarith [Real.pi_gt_three]
 
 /-! ### Histories -/
 
